@@ -279,14 +279,18 @@ def rule_outgoing(rep, idx):
             top = max(slots) if slots else 0
             size = M.frame.fields['size']
             lbs = size.lbs or ([size.aff] if size.aff else [])
-            # the frame must cover offset-at-call + (top + 1) words
-            ok = False
+            # the frame must cover offset-at-call + (top + 1) words; the exit call never returns, so it may overwrite the caller's
+            # frame, but must stay within the FB_PARAM_OFFSET_FUNC words of headroom above the initial stack pointer
+            need = top + 1
+            if callkind == 'syscall exit':
+                need = max(0, top - 2)
+            ok = need == 0
             best = None
             for lb in lbs:
                 if lb is None:
                     continue
                 d = aff_add(lb, f0, -1)
-                if not [k for k in d[0] if not k.startswith('D')] and d[1] >= top + 1 and all(c >= 0 for c in d[0].values()):
+                if not [k for k in d[0] if not k.startswith('D')] and d[1] >= need and all(c >= 0 for c in d[0].values()):
                     ok = True
                 if not d[0]:
                     best = d[1] if best is None else max(best, d[1])
